@@ -136,9 +136,7 @@ func (e *c17pEnv) newPartition(enc bool) *partition {
 	name := fmt.Sprintf("c17p%d", e.seq)
 	req := &client.CreateStreamRequest{Subject: name, Name: name, ReplicationFactor: 1, Partitions: 1,
 		Encryption: &client.NullableBool{Value: enc}}
-	ctx, cancel := context.WithTimeout(context.Background(), 10*time.Second)
-	defer cancel()
-	if _, err := e.s.api.CreateStream(ctx, req); err != nil {
+	if err := vCreateStream(e.s, req); err != nil {
 		e.t.Fatalf("create stream: %v", err)
 	}
 	deadline := time.Now().Add(5 * time.Second)
